@@ -3,7 +3,10 @@ use crate::data::{
     validated_file::{self as validated},
     ByteIndex, DollarlessTerminalName, KikiErr,
 };
+#[cfg(not(kiki_verif))]
 use std::collections::{HashMap, HashSet};
+#[cfg(kiki_verif)]
+use crate::verif_collections::{HashMap, HashSet};
 
 pub fn validate_ast(file: File) -> Result<validated::File, KikiErr> {
     let terminal_enum = get_terminal_enum(&file)?;
